@@ -318,7 +318,7 @@ pub fn fault_clone_h<Tr: ?Sized + Trait + Cloneable, B: Backend, E: Elem + Satis
 }
 
 /// a replacement iterator whose len() is off by `delta` in -2..=2 from what it yields
-pub fn liar_h<Tr: ?Sized + Trait, B: Backend, E: Elem + SatisfyTraits<Tr>>(p: crate::c02::P2, typed: bool) {
+pub fn liar_h<Tr: ?Sized + Trait, B: Backend, E: Elem + SatisfyTraits<Tr>>(p: crate::c02::P2, typed: bool, dl: Dim) {
     reset_all();
     reset();
     let (mut v, m) = build::<Tr, B, E>(p.cap, p.len, 0);
@@ -328,7 +328,8 @@ pub fn liar_h<Tr: ?Sized + Trait, B: Backend, E: Elem + SatisfyTraits<Tr>>(p: cr
     assume(s <= e && e <= len);
     let n = p.r.get();
     assume(n <= 2);
-    let d = any_usize();
+    // misreport: dl in 0..=4 stands for len() off by -2..=+2
+    let d = dl.get();
     assume(d <= 4);
     let delta = d as isize - 2;
     assume(n as isize + delta >= 0);
